@@ -2,14 +2,14 @@
 # usage: confirm_seed.sh <seed worktree> <seed id> [demo env prefix]
 # Confirms a seeded change in a FRESH scratch worktree of /repo's HEAD: the demo passes without the patch,
 # fails with it, and the pinned test-suite still passes with it. Stores it under /verif/seeded/<id>/.
-SEED=$1; ID=$2; DEMOENV=${3:-}
+SEED=$1; ID=$2; DEMOENV=${3:-}; PROFILE=${4:---release}
 W=/tmp/confirm_$ID
 git -C /repo worktree remove --force $W 2>/dev/null; rm -rf $W
 git -C /repo worktree add -q --detach $W HEAD || exit 2
 mkdir -p $W/target
 cp -r $SEED/tests/demo_seed* $W/tests/
 cd $W
-run_demo() { env $DEMOENV CARGO_NET_OFFLINE=true cargo test --offline --release --test demo_seed > $W/target/demo_$1.log 2>&1; echo $?; }
+run_demo() { env $DEMOENV CARGO_NET_OFFLINE=true cargo test --offline $PROFILE --test demo_seed > $W/target/demo_$1.log 2>&1; echo $?; }
 RC_WITHOUT=$(run_demo without)
 git apply $SEED/patch.diff || { echo "patch does not apply"; exit 2; }
 RC_WITH=$(run_demo with)
@@ -21,9 +21,9 @@ mkdir -p $D
 cp $SEED/patch.diff $D/patch.diff
 cp $SEED/tests/demo_seed.rs $D/demo_seed.rs
 for x in $SEED/tests/demo_seed_*; do [ -e "$x" ] && cp -r "$x" $D/; done
-python3 - "$SEED" "$D" "$RC_WITHOUT" "$RC_WITH" "$RC_BASE" "$DEMOENV" <<'PY'
+python3 - "$SEED" "$D" "$RC_WITHOUT" "$RC_WITH" "$RC_BASE" "$DEMOENV" "$PROFILE" <<'PY'
 import json, sys, subprocess
-seed, d, rwo, rw, rb, denv = sys.argv[1:7]
+seed, d, rwo, rw, rb, denv, prof = sys.argv[1:8]
 try:
     m = json.load(open(seed + '/meta.json'))
 except Exception:
@@ -32,7 +32,7 @@ head = subprocess.run(['git','-C','/repo','rev-parse','--short','HEAD'],capture_
 m.update({"confirmed_on_repo_head": head,
           "confirmed": {"demo_without_patch_rc": int(rwo), "demo_with_patch_rc": int(rw), "baseline_with_patch_rc": int(rb)},
           "what_i_ran": ["git worktree add /tmp/confirm_<id> HEAD; copy demo to tests/demo_seed.rs",
-                         (denv + " " if denv else "") + "cargo test --offline --release --test demo_seed   (without patch)",
+                         (denv + " " if denv else "") + "cargo test --offline " + prof + " --test demo_seed   (without patch)",
                          "git apply patch.diff; same command (with patch)",
                          "cargo nextest run ... (pinned suite) compared with BASELINE.json stable_pass"]})
 json.dump(m, open(d + '/meta.json', 'w'), indent=1)
